@@ -240,6 +240,34 @@ theorem step_handles {b : Backend} (hb : b.leaky = false) (st : Store α) (w : W
         intro h
         obtain ⟨r1, w'⟩ := r
         cases r1 <;> simp [put_handles] <;> exact h
+  | squeeze i inplace =>
+    simp only [step]
+    cases w.heap[i]? with
+    | none => rfl
+    | some s =>
+      simp only
+      split
+      · exact put_handles _ _ _ _
+      · have h := getArray_handles hb st w s
+        revert h
+        generalize getArray b st w s = r
+        intro h
+        obtain ⟨r1, w'⟩ := r
+        cases r1 <;> simp [put_handles] <;> exact h
+  | flatten i inplace =>
+    simp only [step]
+    cases w.heap[i]? with
+    | none => rfl
+    | some s =>
+      simp only
+      split
+      · exact put_handles _ _ _ _
+      · have h := getArray_handles hb st w s
+        revert h
+        generalize getArray b st w s = r
+        intro h
+        obtain ⟨r1, w'⟩ := r
+        cases r1 <;> simp [put_handles] <;> exact h
   | insertDim i inplace =>
     simp only [step]
     cases w.heap[i]? with
